@@ -34,7 +34,39 @@ def run_check(prop, src, seed, runs=None):
     return p.returncode, sigs, p.stdout.strip().splitlines()[-1] if p.stdout.strip() else ""
 
 
+def rate_mode(only, n):
+    """Detection rate: the target check under n different seeds per change (no early stop)."""
+    path = os.path.join(SEEDED, "rates.json")
+    rates = json.load(open(path)) if os.path.exists(path) else {}
+    for name in sorted(os.listdir(SEEDED)):
+        d = os.path.join(SEEDED, name)
+        if not os.path.isdir(d) or (only and name not in only):
+            continue
+        meta = json.load(open(os.path.join(d, "meta.json")))
+        tmp = tempfile.mkdtemp(prefix="seeded-src-", dir="/var/tmp")
+        try:
+            shutil.copytree("/repo/src", os.path.join(tmp, "src"), ignore=shutil.ignore_patterns("__pycache__"))
+            ap = subprocess.run(["patch", "-s", "-p1", "-i", os.path.join(d, "patch.diff")], cwd=tmp, capture_output=True, text=True)
+            if ap.returncode != 0:
+                print(name, "PATCH FAILED")
+                continue
+            hits = []
+            for k in range(n):
+                seed = 31337 + k * 104729
+                rc, sigs, last = run_check(meta["property"], os.path.join(tmp, "src"), seed)
+                hits.append(rc)
+            rates[name] = {"property": meta["property"], "seeds": n, "caught": sum(1 for r in hits if r == 1), "harness_errors": sum(1 for r in hits if r == 2)}
+            print(name, f"{rates[name]['caught']}/{n}", flush=True)
+        finally:
+            shutil.rmtree(tmp, ignore_errors=True)
+        with open(path, "w") as f:
+            json.dump(rates, f, indent=1, sort_keys=True)
+
+
 def main(argv):
+    rate = int(argv[argv.index("--rate") + 1]) if "--rate" in argv else 0
+    if rate:
+        return rate_mode([a for a in argv if not a.startswith("--") and a != str(rate)], rate)
     all_checks = "--all" in argv
     only = [a for a in argv if not a.startswith("--")]
     nseeds = int(argv[argv.index("--seeds") + 1]) if "--seeds" in argv else 2
